@@ -135,6 +135,7 @@ Enabled(st, d) ==
     [] d.k = "field"  -> InScope(st, "type") /\ Top(st).kind \in {"tuple", "relation"}
     [] d.k = "enumitem" -> InScope(st, "type") /\ Top(st).kind = "enum"
     [] d.k = "member" -> InScope(st, "type") /\ Top(st).kind = "union"
+    [] d.k = "inplace" -> InScope(st, "type") /\ Top(st).kind \in {"tuple", "relation"}
     [] d.k = "alias"  -> InScope(st, "app")
     [] d.k = "mixin"  -> InScope(st, "app")
     [] d.k = "anno"   -> st.scope # <<>> /\ Top(st).k \in {"app", "type", "ep"}
@@ -175,6 +176,16 @@ StepField(st, d) ==
   IN Loc([s1 EXCEPT !.scope[Len(s1.scope)].own = @ + 1], <<"field", fr.app, fr.type, d.name>>, d)
 
 Own(st) == [st EXCEPT !.scope[Len(st.scope)].own = @ + 1]
+
+\* a field whose type is written in place (`f <:` followed by indented fields): the fields make a tuple named
+\* <enclosing type>.<field>, and the field refers to it by the field's own name; the tuple carries no location
+StepInplace(st, d) ==
+  LET fr == Top(st)
+      tn == fr.type \o "." \o d.name
+      s0 == [st EXCEPT !.model = {f \in @ : ~(f[1] = "field" /\ f[2] = fr.app /\ f[3] = fr.type /\ f[4] = d.name)}]
+      s1 == Add(s0, {<<"field", fr.app, fr.type, d.name, "ref:" \o d.name>>, <<"type", fr.app, tn, "tuple">>})
+      s2 == Loc(Own(s1), <<"field", fr.app, fr.type, d.name>>, d)
+  IN Push(s2, [k |-> "type", app |-> fr.app, type |-> tn, kind |-> "tuple", own |-> 0])
 
 StepEnumItem(st, d) == Own(Add(st, {<<"enum", Top(st).app, Top(st).type, d.name, ToString(d.val)>>}))
 
@@ -291,6 +302,7 @@ Step(st, d) ==
     [] d.k = "app"    -> StepApp(st, d)
     [] d.k = "type"   -> StepType(st, d)
     [] d.k = "field"  -> StepField(st, d)
+    [] d.k = "inplace" -> StepInplace(st, d)
     [] d.k = "enumitem" -> StepEnumItem(st, d)
     [] d.k = "member" -> StepMember(st, d)
     [] d.k = "alias"  -> StepAlias(st, d)
